@@ -473,6 +473,13 @@ def c08(ctx):
     V.mc(ctx, "MC_C08", workers=8)
     summ = V.gen_traces(ctx, shards=12)
     V.validate(ctx, "Trace_C08", summ, V.default_sig, par=12, timeout=3000)
+    if ctx.tier == "thorough":
+        # structured fuzzing: the fuzzer's bytes drive the section generator, coverage of the real decoder steers it;
+        # the corpus is regenerated (abstract value + bytes) and judged like every other event
+        rows, nrows = V.go_fuzz(ctx, "FuzzC08", 120, parallel=8)
+        if nrows:
+            summf = V.gen_traces(ctx, shards=8, name="trace-fuzz", extra=["-in", rows])
+            V.validate(ctx, "Trace_C08", summf, V.default_sig, par=8, timeout=3000)
     return V.finish(ctx, "model_checking",
                     rule="MC: structural consistency of Scte35!SectionOf (section_length, splice_command_length, descriptor_loop_length, every descriptor_length, CRC residue, adjusted PTS wrap) on "
                          "14 commands x 12 descriptor lists x pts_adjustment x tier. B3: NewSCTE35 on generated sections (splice_null / time_signal / splice_insert in every mode, 0..3 descriptors mixing "
